@@ -19,9 +19,14 @@ pub struct GenParams {
     pub allow_classes: bool,
     pub allow_perl: bool,
     pub allow_dot: bool,
+    pub allow_unicode: bool,
     pub max_rep: u32,
     pub styles: bool,
 }
+
+/// Supported Unicode classes used as leaves (few, so that a class and its negation often meet in
+/// one scanner).
+pub const UNI_LEAVES: [&str; 4] = ["L", "N", "Alphabetic", "Lowercase"];
 
 impl Default for GenParams {
     fn default() -> Self {
@@ -35,6 +40,7 @@ impl Default for GenParams {
             allow_classes: true,
             allow_perl: !cfg!(miri),
             allow_dot: true,
+            allow_unicode: !cfg!(miri),
             max_rep: 3,
             styles: true,
         }
@@ -48,6 +54,7 @@ impl GenParams {
             allow_classes: false,
             allow_perl: false,
             allow_dot: false,
+            allow_unicode: false,
             styles: false,
             ..Default::default()
         }
@@ -129,10 +136,14 @@ pub fn gen_leaf(rng: &mut Rng, p: &GenParams) -> Re {
     } else if r < 18 && p.allow_classes {
         Re::Class(gen_small_class(rng, p))
     } else if r < 19 && p.allow_perl {
-        Re::Perl(
-            *rng.pick(&[PerlKind::Digit, PerlKind::Space, PerlKind::Word]),
-            rng.chance(1, 4),
-        )
+        if p.allow_unicode && rng.chance(1, 3) {
+            Re::Uni(UNI_LEAVES[rng.below(UNI_LEAVES.len())].to_string(), rng.chance(1, 2))
+        } else {
+            Re::Perl(
+                *rng.pick(&[PerlKind::Digit, PerlKind::Space, PerlKind::Word]),
+                rng.chance(1, 4),
+            )
+        }
     } else {
         Re::Lit(*rng.pick(&p.letters), LitStyle::Verbatim)
     }
